@@ -30,6 +30,7 @@ type StepRig struct {
 	dTouched   [3][]uint16 // per mirror: addresses that may differ from the base image
 	DirectPost z80.States
 	DirectNote string
+	lastDirect int
 }
 
 // BreakChain makes the next Run start with a fresh CPU object.
@@ -211,6 +212,7 @@ func (g *StepRig) Run(c *StepCase) (out StepOutcome) {
 	var dPost z80.States
 	var dHalt bool
 	var dPan interface{}
+	g.lastDirect = g.Direct
 	if g.Direct != 0 {
 		dPost, dHalt, dPan = g.directRun(c)
 	}
@@ -341,6 +343,9 @@ func (g *StepRig) Witness(enc Encoding, c *StepCase, o *StepOutcome) map[string]
 		"ref_ports": DumpAccesses(g.RefIO.Log),
 		"f_mask":    h8(o.Info.FMask),
 		"direct_memory_note": g.DirectNote,
+		"pre_halt":    c.PreHALT,
+		"no_handlers": c.NoHandlers,
+		"direct":      g.lastDirect,
 		"handlers":  fmt.Sprintf("emu RETN=%d RETI=%d ref RETN=%d RETI=%d", g.RC.RETN, g.RC.RETI, g.Ref.RETN, g.Ref.RETI),
 	}
 	if o.Info.HasAlt {
